@@ -109,21 +109,35 @@ func gopfmt(path string, class, smart, mvgo bool) (err error) {
 }
 
 func writeFileWithBackup(path string, target []byte) (err error) {
+	fi, err := os.Stat(path)
+	if err != nil {
+		return
+	}
 	dir, file := filepath.Split(path)
+	if dir == "" {
+		dir = "." // os.CreateTemp("", ...) would use os.TempDir(), maybe on another device
+	}
 	f, err := os.CreateTemp(dir, file)
 	if err != nil {
 		return
 	}
 	tmpfile := f.Name()
+	defer func() {
+		if err != nil {
+			os.Remove(tmpfile)
+		}
+	}()
 	_, err = f.Write(target)
-	f.Close()
+	if err == nil {
+		err = f.Chmod(fi.Mode().Perm())
+	}
+	if e := f.Close(); err == nil {
+		err = e
+	}
 	if err != nil {
 		return
 	}
-	err = os.Remove(path)
-	if err != nil {
-		return
-	}
+	// rename replaces path atomically: it holds the old or the new content at any moment
 	return os.Rename(tmpfile, path)
 }
 
